@@ -139,7 +139,10 @@ def run(ctx, fa, own):
                         ctx.count("C03.index", "ok")
                     else:
                         fail("C03.index", "index-accepted", kind="negative" if bv < 0 else "too-large", index=bv, n=e["n"], got=repr(v)[:120])
-            # (2b) skipped as the LAST thing of the input: a cut inside the skipped value must still raise
+        # (2b) skipped as the LAST thing of the input (a reader schema that drops the field): a cut inside the skipped value must still raise
+        if own("C03.") or own("C06."):
+            sp_clause = "C03.skip_prefix" if own("C03.") else "C06.skip_prefix"
+            r = {"type": "record", "name": "Zz_wrap", "fields": [{"name": "marker", "type": "long"}]}
             w2 = {"type": "record", "name": "Zz_wrap", "fields": [{"name": "marker", "type": "long"}, {"name": "x", "type": raw}]}
             full = bytes(g["marker"]) + data
             offs2 = prefix_offsets(rnd, len(data), [e["pos"] for e in g["ix"]])
@@ -150,12 +153,12 @@ def run(ctx, fa, own):
                     bad_off = k
                     break
             if bad_off is None:
-                ctx.count("C03.skip_prefix", "ok", len(offs2))
+                ctx.count(sp_clause, "ok", len(offs2))
                 kind, v, pos = read_outcome(fa, full, w2, r)
                 if not (kind == "value" and v == {"marker": 12345} and pos == len(full)):
-                    fail("C03.skip", "layout-skip-last", got=repr(v)[:200], pos=pos)
+                    fail(sp_clause, "layout-skip-last", got=repr(v)[:200], pos=pos)
             else:
-                fail("C03.skip_prefix", "skip-prefix-accepted", offset=bad_off, got=repr(v)[:120])
+                fail(sp_clause, "skip-prefix-accepted", offset=bad_off, got=repr(v)[:120])
         # (4) every proper prefix raises (C03 short input; C06 schemaless half)
         if own("C03.") or own("C06."):
             clause = "C03.prefix" if own("C03.") else "C06.prefix"
